@@ -14,6 +14,7 @@ INVARIANT CurrentDefined
 INVARIANT AcceptPinned
 INVARIANT UnknownRefused
 INVARIANT Bounded
+INVARIANT CountsWellFormed
 INVARIANT Emit
 PROPERTY TimeTravelStable
 CHECK_DEADLOCK FALSE
